@@ -167,8 +167,13 @@ func init() {
 			fr.i.world.poolMode = int(asInt64(a[0]))
 			return nil
 		},
-		"vxAllocLimit": func(fr *frame, a []value) value {
+		"vxAllocGuard": func(fr *frame, a []value) value {
 			fr.i.allocLimit = a[0]
+			fr.i.allocLabel, _ = concreteStr(a[1])
+			return nil
+		},
+		"vxAllocGuardEnd": func(fr *frame, a []value) value {
+			fr.i.allocLimit = nil
 			return nil
 		},
 		"vxCheckSize": func(fr *frame, a []value) value {
